@@ -105,6 +105,8 @@ class Task(object):
         self.thread = None
         self.crashed_at = None
         self.fired = []      # faults that actually fired
+        self.fired_ctx = []  # statements of the open transaction, per fault
+        self.cur_txn = []
         self.pending_winners = []
         self.data_commits = 0
 
@@ -288,6 +290,9 @@ class Sim(object):
     def _count(self, task, kind, ordinal):
         self.fault_counts[kind] = self.fault_counts.get(kind, 0) + 1
         task.fired.append((ordinal, kind))
+        # where it struck, judged from the statements of the transaction so
+        # far (needed for second faults, whose ordinals no dry run knows)
+        task.fired_ctx.append(list(task.cur_txn))
 
     def _flush_winners(self, task):
         if not task.pending_winners:
@@ -324,11 +329,13 @@ class Sim(object):
                 self._flush_winners(task)
                 self.yield_point(task, 'begin')
                 task.ntxn += 1
+                task.cur_txn = []
             if self.trace_sql:
                 task.ops.append(('B', 'top' if top else 'nested', ''))
             return
         k = task.nops
         task.nops += 1
+        task.cur_txn.append((verb, table))
         if self.trace_sql:
             task.ops.append(('S', verb, table))
         kind = self.faults.get((task.idx, k))
